@@ -12,7 +12,7 @@ METRICS = False
 
 def gen_cases(rng, tier, metrics):
     cases, stats = [], {"shapes": {}, "fam": {"v4": 0, "v6": 0}, "capacity": {}}
-    nseq = (700 if metrics else 2000) if tier == "quick" else (6000 if metrics else 40000)
+    nseq = (700 if metrics else 2000) if tier == "quick" else (2000 if metrics else 40000)   # gathering is linear in the registered series: quadratic overall
     for n in range(nseq):
         fam, clen, nlen = poolseq.pick_geometry(rng)
         if metrics:
